@@ -22,6 +22,7 @@ def run(ctx, rep):
         # first / last / nth agree with indexing and reverse because they ARE slice::first / last / get (C17.DELEG, shared)
         from props import c17
         c17.check_seq_deleg(crate, rep, cfg)
+        check_reverse_kind(crate, rep, cfg)
 
 
 def check_orduse(crate, rep, cfg):
@@ -190,3 +191,52 @@ def check_orduse(crate, rep, cfg):
         ok = any(callee_def(t).endswith("::" + want) for bb, t in b.calls()) and not any(callee_def(t) == "std::ops::Index::index" for bb, t in b.calls())
         rep.add("C16.ORDUSE", "C16.ORDUSE:%s:non-panicking-access" % name, ok, b.where(0), "filters::%s uses the Option-returning %s() (out of range => undefined/none, not a panic)" % (name, want)
                 + ("" if ok else " — VIOLATED"))
+
+
+# which ValueInner variant a conversion into Value builds (the impls of value/mod.rs; anything unlisted is "unknown" and reported)
+BUILDS = {
+    "<value::Value as std::convert::From<std::vec::Vec<T>>>::from": "Array",
+    "<value::Value as std::convert::From<std::string::String>>::from": "String",
+    "<value::Value as std::convert::From<&str>>::from": "String",
+    "<value::Value as std::convert::From<&[u8]>>::from": "Bytes",
+    "value::Value::bytes": "Bytes",
+}
+
+
+def check_reverse_kind(crate, rep, cfg):
+    """C16.KIND — "reversing twice gives back the input" needs `reverse` to answer with a value of the kind it was given: per arm of
+    Value::reverse (Array / Bytes / String), the Ok payload is built by a conversion that produces that same ValueInner variant. (A
+    `Vec<u8>` handed to the generic `From<Vec<T>>` becomes an Array of integers.)"""
+    from engine import EdgeFacts
+    b = crate.one("value::Value::reverse")
+    rep.analysed(b)
+    tr = Tracer(b, transparent=set())
+    ef = EdgeFacts(b, crate)
+    arms = {}
+    for sb in sorted(b.reachable):
+        if b.term(sb)["k"] != "switch":
+            continue
+        for tgt, fl in ef.facts_for_switch(sb).items():
+            for f in fl:
+                if f[0] == "variant" and f[1].endswith("ValueInner") and f[4] and len(f[3]) == 1 and tgt != sb:
+                    arms[next(iter(f[3]))] = {x for x in b.reach_from(tgt) if b.dominates(tgt, x)}
+    n = 0
+    for variant in ("Array", "Bytes", "String"):
+        reg = arms.get(variant, set())
+        built = set()
+        for bb, idx, st in find_aggs(b, "std::result::Result", "Ok"):
+            if bb not in reg:
+                continue
+            for l in tr.operand(st["rv"]["ops"][0]):
+                if l.kind == "call":
+                    res = b.term(l.detail[2])["f"].get("res") or l.detail[0]
+                    built.add(BUILDS.get(res, BUILDS.get(l.detail[0], "unknown:" + str(res))))
+                elif l.kind == "agg" and str(l.detail[1]).endswith("ValueInner"):
+                    built.add(l.detail[2])
+                elif l.kind != "cycle":
+                    built.add("unknown:" + leaf_str(l))
+        n += 1
+        ok = built == {variant}
+        rep.add("C16.KIND", "C16.KIND:reverse:%s-stays-%s" % (variant, variant), ok, b.where(min(reg)) if reg else b.where(0), "Value::reverse of a %s builds a %s" % (variant, variant)
+                + ("" if ok else " — VIOLATED: builds %s" % (sorted(built) or "nothing recognised")))
+    rep.floor("C16.KIND", "arms of Value::reverse checked [%s]" % cfg, n, 3)
